@@ -129,10 +129,6 @@ func getWorld() *world {
 				w.err = err
 				return
 			}
-			if err := ks.GenerateLogKey(); err != nil {
-				w.err = err
-				return
-			}
 		}
 		cb := poison.NewCallbackStorage()
 		cb.AddCallback(countingCallback{&w.poisons})
@@ -154,6 +150,13 @@ func mustWorld() (*world, error) {
 func (w *world) ctxFor(id []byte) context.Context {
 	ac := base.NewAccessContext(base.WithClientID(id))
 	return base.SetAccessContextToContext(context.Background(), ac)
+}
+
+// sessionCtx is ctxFor plus a client session (the query observers keep per-session placeholder settings).
+func (w *world) sessionCtx(id []byte) context.Context {
+	s := newProxySession()
+	ac := base.NewAccessContext(base.WithClientID(id))
+	return base.SetAccessContextToContext(s.ctx, ac)
 }
 
 // memConn is an in-memory net.Conn: reads come from a fixed byte string, writes are discarded.
